@@ -41,7 +41,11 @@ class Variables:
                 assert set_expressions, "SET without values in expression(s) is unexpected."
                 eq = set_expressions[0].this
                 name = eq.this.sql()
-                value = eq.args.get("expression").sql(dialect="snowflake")
+                value_expr = eq.args.get("expression")
+                value = value_expr.sql(dialect="snowflake")
+                if not isinstance(value_expr, (exp.Literal, exp.Boolean, exp.Null)):
+                    # keep an expression value together when it is substituted into a larger expression
+                    value = f"({value})"
                 self._set(name, value)
             else:
                 # Haven't been able to produce this in tests yet due to UNSET being parsed as an Alias expression.
